@@ -30,6 +30,14 @@ CHECKS = {
         technique=DST + "Go race detector as the oracle inside the seeded, serialised schedule",
         note="Trusted: Go's race detector (sees only accesses that execute; happens-before through sync.Pool inside fmt/encoding/json can hide a race as in any Go program), the hidden-handoff construction of DESIGN.md §2.7, testing/synctest.",
         ref="DESIGN.md §2.7, §4 C16"),
+    "C17": dict(
+        text="Generated sequences of ReadBytes / Read / Write on the ReadWriterContext obtained through Connection.Upgrade (simulated stream, and the real PipeCon over simulated stdio pipe ends) or as Call.Conn inside a handler; contexts live / cancelled by a canceller task at a generated instant (before the call, blocked with nothing in flight, mid-frame, tie with completion) / with a deadline on the simulated clock / serving context cancelled; peer writes a known stream in generated pieces; writers block on tiny pipes. Oracles: operation returns at the very simulated instant its context is done, with a context/timeout error or success; no helper task left at quiescence; live-context operations never fail; received bytes = the peer's stream with at most one contiguous gap per cancelled read, never extending past what was written when it returned; wire bytes = written data (prefix for cancelled writes).",
+        technique=DST + "context cancellation/deadline instants as seeded kernel events, exact zero-latency unblocking oracle, stream-continuity oracle",
+        ref="DESIGN.md §4 C17"),
+    "C18": dict(
+        text="A peer writes NUL-terminated frames followed by raw payload, cut so that payload shares a segment with the preceding frame; the consumer mixes ReadBytes(0) and Read of 1..8192 bytes in generated order, client side through Upgrade's object and service side through Call.Conn. Oracle: concatenation of everything returned = the exact prefix of the stream; a satisfiable read never stays blocked at quiescence.",
+        technique=DST + "adversarial segmentation / coalescing / short reads of the simulated transport, byte-exact stream oracle",
+        ref="DESIGN.md §4 C18"),
 }
 
 NA = {
@@ -41,7 +49,7 @@ NA = {
     "C20": "pure function of process-global OS state (environment, pid, inherited fd table) with no seam; a finite configuration product to enumerate in subprocesses, not simulation (DESIGN.md §5)",
 }
 
-PENDING = {'C02': 'simulation-decidable (DESIGN.md §4) but its check is not built yet at this commit; not claimed until it is', 'C03': 'simulation-decidable (DESIGN.md §4) but its check is not built yet at this commit; not claimed until it is', 'C11': 'simulation-decidable (DESIGN.md §4) but its check is not built yet at this commit; not claimed until it is', 'C12': 'simulation-decidable (DESIGN.md §4) but its check is not built yet at this commit; not claimed until it is', 'C13': 'simulation-decidable (DESIGN.md §4) but its check is not built yet at this commit; not claimed until it is', 'C17': 'simulation-decidable (DESIGN.md §4) but its check is not built yet at this commit; not claimed until it is', 'C18': 'simulation-decidable (DESIGN.md §4) but its check is not built yet at this commit; not claimed until it is', 'C19': 'simulation-decidable (DESIGN.md §4) but its check is not built yet at this commit; not claimed until it is'}
+PENDING = {'C02': 'simulation-decidable (DESIGN.md §4) but its check is not built yet at this commit; not claimed until it is', 'C03': 'simulation-decidable (DESIGN.md §4) but its check is not built yet at this commit; not claimed until it is', 'C11': 'simulation-decidable (DESIGN.md §4) but its check is not built yet at this commit; not claimed until it is', 'C12': 'simulation-decidable (DESIGN.md §4) but its check is not built yet at this commit; not claimed until it is', 'C13': 'simulation-decidable (DESIGN.md §4) but its check is not built yet at this commit; not claimed until it is', 'C19': 'simulation-decidable (DESIGN.md §4) but its check is not built yet at this commit; not claimed until it is'}
 
 def main():
     checks = []
